@@ -27,7 +27,7 @@ type Val struct {
 
 type opaque struct{ id int }
 
-var objPool = []*opaque{{0}, {1}, {2}}
+var objPool = []*opaque{{0}, {1}, {2}, {0}} // #3 is another object with the content of #0
 
 func vNull() Val        { return Val{T: "N"} }
 func vInt(i int) Val    { return Val{T: "I", V: strconv.Itoa(i)} }
@@ -236,7 +236,7 @@ func valuePool() []Val {
 		vSpan(0), vSpan(time.Millisecond), vSpan(-time.Hour), vSpan(1500 * time.Microsecond), vSpan(90 * time.Second), vSpan(math.MaxInt64), vSpan(math.MinInt64),
 		vTime(t0), vTime(t1975), vTime(t1975.In(tz)), vTime(time.Date(2262, 1, 1, 0, 0, 0, 0, time.UTC)), vTime(time.Date(2020, 2, 29, 23, 59, 59, 500, time.UTC)), vTime(time.Time{}), vTime(time.Date(10000, 1, 1, 0, 0, 0, 0, time.UTC)), vTime(time.Date(-1, 6, 1, 0, 0, 0, 0, time.UTC)), vTime(time.Date(2020, 2, 29, 23, 59, 59, 900, time.UTC)), vTime(time.Date(2024, 1, 2, 2, 0, 0, 0, time.FixedZone("", 14*3600))), vTime(time.Date(2023, 12, 31, 23, 30, 0, 0, time.FixedZone("", -11*3600))),
 		vArr(), vArr(vInt(1), vInt(2), vInt(3)), vArr(vStr("a"), vNull(), vDouble(2)), vArr(vArr(vInt(1)), vArr()), vArr(vInt(1), vStr("x")), vArr(vLong(5), vBool(true)),
-		vObj(0), vObj(1),
+		vObj(0), vObj(1), vObj(3),
 	}
 	// round 4: texts that look like dates cut at various lengths, zero-padded and signed integer texts, instants just
 	// below a whole second, a big base with small negative exponents, and a long list with a nested list and a NaN
@@ -253,7 +253,7 @@ func valuePool() []Val {
 		vArr(long...),
 		// round 5: duration texts in every unit spelling, decimal texts a hair above a single-precision midpoint, two instants 2^64 ns apart
 		vStr("250\u03bcs"), vStr("250\u00b5s"), vStr("1m0.5\u03bcs"), vStr("-2.5us"), vStr("2h45m"), vStr("1.5h"),
-		vStr("16777217.000000001"), vStr("1.0000000596046447753906251"), vStr("0e9999999999999999"), vDouble(math.Nextafter(1, 2)), vDouble(-math.Nextafter(1, 2)), vDouble(1+1e-10), vDouble(math.Nextafter(1, 0)), vStr("25e3"), vStr("-0e12"), vStr("1e400"), vStr("9e18"),
+		vStr("16777217.000000001"), vStr("1.0000000596046447753906251"), vLong(9111111111111111), vLong(-9111111111111111), vStr("0e9999999999999999"), vDouble(math.Nextafter(1, 2)), vDouble(-math.Nextafter(1, 2)), vDouble(1+1e-10), vDouble(math.Nextafter(1, 0)), vStr("25e3"), vStr("-0e12"), vStr("1e400"), vStr("9e18"),
 		vTime(time.Date(2000, 1, 1, 0, 0, 0, 0, time.UTC)), vTime(time.Date(2000, 1, 1, 0, 0, 0, 0, time.UTC).Add(1<<63-1).Add(1<<63-1).Add(2)),
 	)
 	return p
